@@ -94,7 +94,7 @@ func (h *VAdv) Run(devs []vrt.Dev, labels bool) *VAdvResult {
 	if mx > 0 {
 		ref = k.RefChain(mx)
 	}
-	res.S = vrt.Run(vrt.Options{Devs: devs, Start: start, MaxSteps: 300000, Until: until, Labels: labels, Watchdog: 20 * time.Second}, func() {
+	res.S = vrt.Run(vrt.Options{Devs: devs, Start: start, MaxSteps: 300000, Until: until, Labels: labels, Watchdog: 60 * time.Second}, func() {
 		defer vrt.SetEarlyTimers(h.EarlyTimers)
 		ctx := context.Background()
 		res.Seq = vrt.ChooseFree(len(h.Seqs), "packet sequence")
